@@ -75,6 +75,7 @@ def check(run):
               'R15', 'forwarder-null-check', fr.norm, fr.loc(), 'sink_forwarder forwards without testing that it is still attached', 'forwards only while attached')
 
     forwarder_rules(run, (T, U))
+    p11.owner_rules(run)
 
     run.clause('R15 member-timer completions: the class cancels the timer on destruction and the completion returns on abort before touching members (or the class is tabled simulation-lifetime)')
     bound = handlers.bound_member_functions(fx)
